@@ -128,15 +128,16 @@ def get_cfg(fn):
 class Policy:
     """decides how crate-local calls are treated"""
 
-    def __init__(self, F, modular=True, inline_depth=8):
+    def __init__(self, F, modular=True, inline_depth=8, step_self=False):
         self.F = F
         self.modular = modular
         self.inline_depth = inline_depth
+        self.step_self = step_self  # keep even self.next(..) delegation as a step node
 
     def decide(self, g, recv_path, depth):
         """-> 'inline' | 'step' | 'ucall'"""
         cfg = get_cfg(g)
-        is_component_method = g.trait_short in ("Next", "Reset") and recv_path is not None and len(recv_path) > 1
+        is_component_method = g.trait_short in ("Next", "Reset") and recv_path is not None and (len(recv_path) > 1 or self.step_self)
         if is_component_method and self.modular:
             return "step"
         if cfg.has_loop():
@@ -829,13 +830,24 @@ def fn_params(fn):
     return names
 
 
-def evaluate(F, fn, policy=None, arg_terms=None, self_root="self"):
+def evaluate(F, fn, policy=None, arg_terms=None, self_root="self", canon=False):
     """Symbolically evaluate `fn` from a symbolic pre-state.
     Returns dict(ret=term, heap={path: term}, steps=..., asserts=..., reads=set)"""
     ex = Exec(F, policy)
     fr = Frame(fn)
     st = State()
     names = fn_params(fn)
+    if canon:
+        # positional names: self, a0, a1, ... (independent of what the author called them)
+        k = 0
+        cn = {}
+        for i in range(1, fn.arg_count + 1):
+            if names.get(i) == "self":
+                cn[i] = "self"
+            else:
+                cn[i] = "a%d" % k
+                k += 1
+        names = cn
     for i in range(1, fn.arg_count + 1):
         ty = fn.locals[i]["ty"]
         nm = names.get(i, "a%d" % i)
